@@ -674,6 +674,11 @@ var firstTiming bool
 const shrinkBudget = 20 * time.Second
 
 func property(t *testing.T, quick, thorough int, prop func(*rapid.T)) {
+	if firstTiming && !vkit.Thorough() {
+		// a bounded-time violation is already recorded; every further confirmation costs whole
+		// bounds and the verdict of the run is decided
+		t.Skip("a bounded-time violation was already reported by an earlier test")
+	}
 	firstViolation = time.Time{}
 	vkit.Check(t, quick, thorough, prop)
 	firstViolation = time.Time{}
